@@ -914,10 +914,10 @@ class Overlay:
     fade_max_sq: float = 0.0
 
     # If system exceeds these limits, the overlay is skipped. Each is a single byte.
-    min_cpu: int = attrs.field(default=_ZERO, validator=attrs.validators.in_(range(255)))
-    max_cpu: int = attrs.field(default=_ZERO, validator=attrs.validators.in_(range(255)))
-    min_gpu: int = attrs.field(default=_ZERO, validator=attrs.validators.in_(range(255)))
-    max_gpu: int = attrs.field(default=_ZERO, validator=attrs.validators.in_(range(255)))
+    min_cpu: int = attrs.field(default=_ZERO, validator=attrs.validators.in_(range(256)))
+    max_cpu: int = attrs.field(default=_ZERO, validator=attrs.validators.in_(range(256)))
+    min_gpu: int = attrs.field(default=_ZERO, validator=attrs.validators.in_(range(256)))
+    max_gpu: int = attrs.field(default=_ZERO, validator=attrs.validators.in_(range(256)))
 
 
 @attrs.define(eq=False)
